@@ -15,7 +15,8 @@ DRIVERS: dict[str, list[list[str]]] = {
     "C02": [["drivers/framings.py"], ["drivers/streams.py", "--mode", "directed"], ["drivers/streams.py", "--max-len", "5"]],
     "C03": [["drivers/endpoints.py", "--max-len", "5", "--faults"], ["drivers/endpoints.py", "--max-len", "4", "--asynchronous"]],
     "C10": [["drivers/endpoints.py", "--max-len", "4", "--asynchronous"], ["drivers/endpoints.py", "--max-len", "5", "--faults"]],
-    "C04": [["drivers/sendpaths.py"]],
+    "C04": [["drivers/sendpaths.py"], ["drivers/tls_send.py"]],
+    "C12": [["drivers/tls_send.py"], ["drivers/fair_lock.py"]],
     "C11": [["drivers/budget.py"]],
     "C05": [["drivers/framings.py", "--oneshot"]],
     "C06": [["drivers/framings.py"], ["drivers/framings.py", "--oneshot"], ["drivers/streams.py", "--max-len", "5"], ["drivers/streams.py", "--mode", "directed"]],
